@@ -353,6 +353,11 @@ func (st *state) evaluate() *Result {
 		fpSuffix = st.evalIdleStall(res, vio)
 	}
 
+	// ---- connected idle peers are used (family quietreconn) --------------
+	if st.sc.Kind == "quietreconn" {
+		fpSuffix = st.evalQuiet(res, vio)
+	}
+
 	// ---- hypothesis 11 records ---------------------------------------------
 	for _, e := range st.log {
 		switch e.K {
